@@ -233,6 +233,9 @@ func hostileAbvs(v *spec.Version) []string {
 		add("/" + a)
 		add(a + a)
 		add(a + "\x00")
+		for _, l := range lookalikes(a) {
+			add(l)
+		}
 		if len(a) > 1 {
 			add(a[:len(a)-1])
 			add(a[1:])
@@ -267,6 +270,9 @@ func hostileValues() []string {
 		add(a + a)
 		add(a + "/")
 		add(a + "\x00")
+		for _, l := range lookalikes(a) {
+			add(l)
+		}
 		if len(a) > 1 {
 			add(a[:len(a)-1])
 			add(a[1:])
@@ -280,6 +286,40 @@ func hostileValues() []string {
 		out = append(out, s)
 	}
 	sortStrings(out)
+	return out
+}
+
+// lookalikes returns strings of the same length as a that keep its first and/or
+// last byte but differ inside: what a shortened comparison (length + first byte,
+// prefix, suffix, hash of a few bytes) cannot tell from the real word.
+func lookalikes(a string) []string {
+	if len(a) < 2 {
+		return nil
+	}
+	var out []string
+	b := []byte(a)
+	for i := range b {
+		for _, c := range []byte{'x', 'Z', '0', b[(i+1)%len(b)]} {
+			if c != b[i] {
+				t := append([]byte{}, b...)
+				t[i] = c
+				out = append(out, string(t))
+			}
+		}
+	}
+	// same first byte, same length, everything else different; same last byte likewise
+	t := []byte(strings.Repeat("q", len(a)))
+	t[0] = b[0]
+	out = append(out, string(t))
+	t = []byte(strings.Repeat("q", len(a)))
+	t[len(t)-1] = b[len(b)-1]
+	out = append(out, string(t))
+	// reversed and rotated
+	r := append([]byte{}, b...)
+	for i, j := 0, len(r)-1; i < j; i, j = i+1, j-1 {
+		r[i], r[j] = r[j], r[i]
+	}
+	out = append(out, string(r), a[1:]+a[:1])
 	return out
 }
 
